@@ -14,9 +14,12 @@ RULE = ("random scenarios in which 1-2 STREAM subscribers are stalled at a drive
 
 def run(tier):
     runs = [("stall", 1200)] if tier == "quick" else [("stall", 40000)]
-    return fam.run_family(PID, tier, runs, MODELS, RULE,
-                          ["update rates are modelled as burst sizes against a closed gate, not as wall-clock throughput",
-                           "timing verdicts use bounds >= 50x the configured timeout"], shards=16 if tier == "quick" else 48)
+    rc1 = fam.run_family(PID, tier, runs, MODELS, RULE,
+                         ["update rates are modelled as burst sizes against a closed gate, not as wall-clock throughput",
+                          "timing verdicts use bounds >= 50x the configured timeout"], shards=16 if tier == "quick" else 48)
+    # subscribers share the cached notifications, the match tree and the server's tables: the same scenarios under the race detector
+    rc2 = fam.race_stage(PID, tier, [("stall", 300), ("stream", 300)] if tier == "quick" else [("stall", 10000), ("stream", 10000), ("remove", 5000), ("overlap", 5000)])
+    return max(rc1, rc2)
 
 
 def replay(path):
